@@ -116,7 +116,7 @@ ADDENDA = {
          "Also: a third of the images as power-loss variants (every WAL segment cut back to its synced length), a quarter of the executions with the written shards in the dual-write phase of a split (write_with_split_awareness; copies under new shards do not count), a quarter with 2-11 lost catalog races in a row; buffer-model lane (WriteBuffer append / take / prepend: every batch keeps the WAL sequence number it was appended with).", None),
  "C02": ("", "The operation mix includes swap_compacted_chunk (the compactor's publication step), refused unless every source is present. Every listing a node serves through its own catalog cache (after each of its operations) must be the listing of the initial catalog or of a version that was actually stored.", None),
  "C03": ("contention bursts up to retry exhaustion; real-thread swap-stress lane on the in-memory catalog (concurrent swaps of the same sources)",
-         "Also: a fifth of the scenarios with a burst of lost compare-and-swap races on the metadata objects; now and then a chunk of more than 1024 / 8192 rows; in-memory catalog: 2-4 swaps of the same sources from real threads, exactly one may win. The evidence counts the merges observed to write a whole number of 1024- / 8192-row batches (1-2 per quick run: thin, see DESIGN 10.9).", None),
+         "Also: a fifth of the scenarios with a burst of lost compare-and-swap races on the metadata objects; now and then a chunk of more than 1024 / 8192 rows; in-memory catalog: 2-4 swaps of the same sources from real threads, exactly one may win. The evidence counts the merges observed to write a whole number of 1024- / 8192-row batches (0-2 per quick run: thin, see DESIGN 10.9).", None),
  "C05": ("durability watch: at the instant an append returns (sync mode EveryWrite) the active segment has no byte beyond its synced length", "Segment limits include 0, 1 and usize::MAX.", None),
  "C04": ("", "A sixth of the datasets lie around the epoch (rows with negative timestamps).", None),
  "C08": ("contention bursts on the lease file (retry exhaustion) in a sixth of the schedules", "", None),
